@@ -112,7 +112,10 @@ type rewriter struct {
 func exportLookup(repo, pkg string) (func(path string) (io.ReadCloser, error), error) {
 	cmd := exec.Command("go", "list", "-export", "-deps", "-f", "{{.ImportPath}}\t{{.Export}}", pkg)
 	cmd.Dir = repo
-	cmd.Env = append(os.Environ(), "GOFLAGS=-mod=mod", "GOPROXY=off", "GOSUMDB=off", "GOTOOLCHAIN=local")
+	cmd.Env = append(os.Environ(), "GOPROXY=off", "GOSUMDB=off", "GOTOOLCHAIN=local")
+	if os.Getenv("GOFLAGS") == "" {
+		cmd.Env = append(cmd.Env, "GOFLAGS=-mod=mod")
+	}
 	var stderr bytes.Buffer
 	cmd.Stderr = &stderr
 	b, err := cmd.Output()
